@@ -544,8 +544,14 @@ def dbg_shape(col, pid, rng, n, edges):
     if n >= 2 and edges:
         j, k = rng.choice(edges)
         bad = mk_sel_spec(n, edges, rng, debug={j})
-        how = rng.choice(["positional", "keyword", "activation_flag"])
+        how = rng.choice(["positional", "keyword", "activation_flag", "argument_of_a_nested_dag"])
         ndk = bad["nodes"][k]
+        if how == "argument_of_a_nested_dag":
+            # the consumer lives in an inner DAG and the debug result is handed to that DAG as an argument
+            if S.nestable(bad, k, k):
+                bad["nest"] = {"name": "nin", "first": k, "last": k, "mc": 1}
+            else:
+                how = "positional"
         if how != "positional":
             ndk["args"] = [a for a in ndk["args"] if not (a[0] == "n" and a[1] == j)]
             ndk["kwargs"] = {kk: a for kk, a in ndk["kwargs"].items() if not (a[0] == "n" and a[1] == j)}
